@@ -56,6 +56,32 @@ static void add_disk(CellVec *s, H3Index h, int k) {
     int64_t n; maxGridDiskSize(k, &n); H3Index *d = calloc(n, 8); gridDisk(h, k, d); for (int64_t i = 0; i < n; i++) if (d[i]) cv_push(s, d[i]); free(d);
 }
 
+/* model -> code: a scenario of H3CompactAlgo (m parents with chosen numbers of children, a chosen slot for every parent, a
+ * presentation order) realised with real cells: parents are searched for whose index has the wanted residue modulo the
+ * round's size n, so that the probe sequences of the model (shared slot, adjacent slots, wrap-around at slot n - 1, a
+ * pentagon parent in the chain, complete parents behind incomplete ones) happen in the real hash table. */
+static void collide_scenario(int res, int pat) {
+    int m = 2 + (int)vt_randn(4), k[6], pentAt = vt_randn(3) == 0 ? (int)vt_randn(m) : -1, n = 0;
+    for (int i = 0; i < m; i++) { int lim = i == pentAt ? 6 : 7; int w = (int)vt_randn(4); k[i] = w == 0 ? lim : w == 1 ? lim - 1 : 1 + (int)vt_randn(lim); n += k[i]; }
+    int base = pat == 1 ? n - 1 : pat == 2 ? n - 2 : (int)vt_randn(n);
+    H3Index par[6], pent[12]; getPentagons(res - 1, pent);
+    CellVec s = {0};
+    for (int i = 0; i < m; i++) {
+        int want = pat == 3 ? (base + i) % n : pat == 2 ? (base + (i & 1)) % n : base;   /* 0/1: one slot; 2: two adjacent slots at the end; 3: a run */
+        H3Index p = 0;
+        for (int tries = 0; tries < 20000 && !p; tries++) {
+            H3Index c = i == pentAt ? pent[vt_randn(12)] : 0; if (!c) cellToParent(vt_random_cell(res), res - 1, &c);
+            int dup = 0; for (int j = 0; j < i; j++) if (par[j] == c) dup = 1;
+            if (!dup && (int)(c % (uint64_t)n) == want) p = c;
+            if (i == pentAt && tries > 200) pentAt = -2;   /* no pentagon with that residue: take a hexagon (k <= 6 is fine for it too) */
+        }
+        if (!p) { cv_free(&s); return; }
+        par[i] = p;
+        CellVec t = {0}; add_children(&t, p, res); shuffle(t.v, t.n); for (int j = 0; j < k[i] && j < t.n; j++) cv_push(&s, t.v[j]); cv_free(&t);
+    }
+    run_set(&s, "collide", 1); cv_free(&s);
+}
+
 int main(int argc, char **argv) {
     if (argc < 4) return 2;
     int quick = argv[1][0] == 'q'; vt_seed(strtoull(argv[2], 0, 10) + 6); vt_open(argv[3]);
@@ -90,6 +116,7 @@ int main(int argc, char **argv) {
         }
         cv_free(&s);
     }
+    for (int it = 0; it < (quick ? 120 : 3000); it++) collide_scenario(1 + (int)vt_randn(15), it % 4);
     /* a few large sets */
     for (int it = 0; it < (quick ? 1 : 4); it++) {
         CellVec s = {0}; int res = 5 + (int)vt_randn(10);
